@@ -26,10 +26,26 @@ For a contract / transport that IS what the split set-up builds (`EAO.C14B`, `bu
 the interval's order book WITHOUT the orders that cover no step of the interval (`EAO.C14O.orderbook_interval`:
 `AI.subVars (A.keep I) = A.restrictTo I`, the other orders are inert variables of `AI`).
 
-NOT proved here (TARGET, remaining gap to `splitWitnessModInert U ps (splitPermLive U Is) = true` for the literal
-`setupSplitOB`): dropping the inert variables of an ASSEMBLED interval problem (`Problem.dropInert`) equals assembling the
-asset problems without their inert variables (`(assemble asI idx skip).dropInert = assemble (asI.map live-part) idx skip`),
-and the same for the unsplit problem when an order covers no step at all (`ordersLiveAll` excludes that here).
+THE LITERAL SPLIT SET-UP (`setupSplitOB`, every order present in every interval, the orders without a step there as
+inert variables):
+
+* `assembly_without_inert` — dropping the inert variables of an ASSEMBLED problem (`Problem.dropInert`) IS assembling the
+  asset problems without their unmapped variables (`livePart` = `AssetProblem.subVars` on the mapped variables):
+  equality of problems (cost, bounds, rows in order, mapping, nodal record), for asset problems whose unmapped
+  variables are inert (`InertOK`);
+* `orderbook_interval_live`, `builder_interval_live` — the order book built on the interval grid is `InertOK` and its live
+  part is the restriction of the unsplit order book; a restricted builder problem has no unmapped variable;
+* `split_witness_orderbooks_literal` — for the LITERAL output `ps` of `setupSplitOB` under `obHyps` (and one discount
+  factor per step for every book, `booksDfOk`): `splitWitnessModInert U ps (splitPermLive U Is) = true`, no certificate;
+  `split_setup_orderbooks_succeeds` — the split set-up succeeds when the unsplit problem has a variable;
+* `split_equals_unsplit_orderbooks_literal` (LP), `split_equals_unsplit_orderbooks_literal_bool` (full execution) —
+  `EAO.C14O.split_equals_unsplit_orderbooks` WITHOUT a witness hypothesis: optima of the literal interval problems
+  (inert variables included, as the optimiser sees them), stripped of the inert entries, concatenated and transported
+  along `splitPermLive`, are a feasible and OPTIMAL point of the unsplit problem; the unsplit optimum is the sum of
+  the interval optima.
+
+Still excluded by hypothesis (`ordersLiveAll` in `obHyps`): an order that covers no step of the WHOLE grid (an inert
+variable of the unsplit problem itself).
 -/
 namespace EAO.C14O2
 open EAO EAO.ObSplit2 EAO.SplitBuild
@@ -112,6 +128,98 @@ theorem split_equals_unsplit_orderbooks_builders (specs : List OSpec) (ref : Gri
   subst hps
   exact C14.split_equals_unsplit_bool U _ _ hw xs hlen hn hfeas hopt
 
+/-! ## the literal split set-up: inert variables of an assembled problem -/
+
+/-- **Dropping the inert variables of an assembled problem = assembling the asset problems without their unmapped
+    variables.**  Asset problems `bs` whose unmapped variables are inert (`InertOK`: bounds per variable, mapping rows
+    and rows only over mapped variables, an unmapped variable has zero cost and a non-empty box): the live variables
+    of the assembly are the mapped variables of the assets, and the assembly without its inert variables
+    (`Problem.dropInert`) EQUALS the assembly of the live parts — cost, bounds, rows (asset rows and nodal rows, in
+    order), mapping and nodal record. -/
+theorem assembly_without_inert (bs : List AssetProblem) (hB : ∀ b ∈ bs, InertOK b) (gridI : List Nat)
+    (skip : List String) :
+    (assemble bs gridI skip).live = liveFrom 0 bs ∧
+    (assemble bs gridI skip).dropInert = assemble (bs.map livePart) gridI skip :=
+  ⟨assemble_live bs hB gridI skip, assemble_dropInert bs hB gridI skip⟩
+
+/-- **the order book of an interval, without its unmapped orders, is the restriction of the unsplit order book**
+    (`g` the book's grid, `I` the interval's original steps, no order across the cut), and its unmapped orders are
+    inert -/
+theorem orderbook_interval_live (name node : String) (orders : List Order) (fe : Bool) (g : Grid) (I : List Nat)
+    (hg : g.Ok) (hin : ∀ o ∈ orders, orderInside g I o = true) :
+    InertOK (orderBookProblem name node orders fe (g.pick I)) ∧
+      livePart (orderBookProblem name node orders fe (g.pick I)) =
+        (orderBookProblem name node orders fe g).restrictTo I :=
+  orderBook_live name node orders fe g I hg hin
+
+/-- a restricted interval-banded asset problem (what a builder returns in an interval) has no unmapped variable -/
+theorem builder_interval_live (a : AssetProblem) (T : Nat) (Is : List (List Nat)) (I : List Nat)
+    (h : IntervalBanded a T Is) : InertOK (a.restrictTo I) ∧ livePart (a.restrictTo I) = a.restrictTo I :=
+  restrictTo_live h.wb I
+
+/-- **The witness modulo inert variables holds for the LITERAL split set-up, no certificate.**  Every portfolio of
+    the five builders plus order books under `obHyps` with one discount factor per step for every book: for the
+    unsplit problem `U` of `setupPortfolioOB` and the interval problems `ps` of `setupSplitOB` (every order a variable
+    of every interval), the unsplit problem without its inert variables IS the block sum of the interval problems
+    without theirs, up to `splitPermLive`. -/
+theorem split_witness_orderbooks_literal (specs : List OSpec) (ref : Grid) (cuts : List Int) (prices : Prices)
+    (u : Nat) (skip : List String) (U : Problem) (ps : List Problem)
+    (hH : obHyps specs ref cuts prices = true) (hdf : booksDfOk specs ref = true)
+    (hU : setupPortfolioOB specs ref prices u skip = .ok U)
+    (hS : setupSplitOB specs ref cuts prices u skip = .ok ps) :
+    splitWitnessModInert U ps (splitPermLive U ((splitPairs cuts).map (intervalSteps ref))) = true :=
+  setupSplitOB_witness specs ref cuts prices u skip U ps hH hdf hU hS
+
+/-- the split set-up succeeds when the unsplit set-up does, with at least one variable -/
+theorem split_setup_orderbooks_succeeds (specs : List OSpec) (ref : Grid) (cuts : List Int) (prices : Prices)
+    (u : Nat) (skip : List String) (U : Problem)
+    (hH : obHyps specs ref cuts prices = true) (hdf : booksDfOk specs ref = true)
+    (hU : setupPortfolioOB specs ref prices u skip = .ok U) (hpos : 0 < U.n) :
+    ∃ ps, setupSplitOB specs ref cuts prices u skip = .ok ps ∧
+      splitWitnessModInert U ps (splitPermLive U ((splitPairs cuts).map (intervalSteps ref))) = true := by
+  obtain ⟨ps, hS⟩ := setupSplitOB_succeeds specs ref cuts prices u skip U hH hdf hU hpos
+  exact ⟨ps, hS, setupSplitOB_witness specs ref cuts prices u skip U ps hH hdf hU hS⟩
+
+/-- **Split optimum = unsplit optimum for the LITERAL split set-up with order books (LP), no witness hypothesis.**
+    `ps` the interval problems `setupSplitOB` returns (inert order variables included, as the optimiser sees them): if
+    every `xs[i]` is feasible and optimal for `ps[i]`, the interval solutions stripped of the inert entries,
+    concatenated, transported along `splitPermLive` and extended by the lower bounds of the inert unsplit variables
+    are a feasible and OPTIMAL point of the unsplit problem; the unsplit optimum is the sum of the interval optima. -/
+theorem split_equals_unsplit_orderbooks_literal (specs : List OSpec) (ref : Grid) (cuts : List Int) (prices : Prices)
+    (u : Nat) (skip : List String) (U : Problem) (ps : List Problem)
+    (hH : obHyps specs ref cuts prices = true) (hdf : booksDfOk specs ref = true)
+    (hU : setupPortfolioOB specs ref prices u skip = .ok U)
+    (hS : setupSplitOB specs ref cuts prices u skip = .ok ps)
+    (xs : List (List Rat)) (hlen : xs.length = ps.length)
+    (hfeas : ∀ i, (h : i < ps.length) → (ps[i]).FeasibleRelaxed (C14.vecOfList (xs.getD i [])))
+    (hopt : ∀ i, (h : i < ps.length) → ∀ z, (ps[i]).FeasibleRelaxed z →
+        (ps[i]).value z ≤ (ps[i]).value (C14.vecOfList (xs.getD i []))) :
+    let w := extendInert U (transportAlong (splitPermLive U ((splitPairs cuts).map (intervalSteps ref)))
+      (concatVec (List.zipWith C14O.stripInert ps xs)))
+    U.FeasibleRelaxed w ∧ (∀ y, U.FeasibleRelaxed y → U.value y ≤ U.value w) ∧
+    U.value w = ((List.range ps.length).map fun i => (ps.getD i default).value (C14.vecOfList (xs.getD i []))).sum :=
+  C14O.split_equals_unsplit_orderbooks U ps _
+    (setupSplitOB_witness specs ref cuts prices u skip U ps hH hdf hU hS) xs hlen hfeas hopt
+
+/-- **The same with full execution** (boolean order variables): interval solutions feasible and optimal INCLUDING the
+    integrality conditions give a feasible and optimal point of the unsplit problem including its integrality
+    conditions. -/
+theorem split_equals_unsplit_orderbooks_literal_bool (specs : List OSpec) (ref : Grid) (cuts : List Int)
+    (prices : Prices) (u : Nat) (skip : List String) (U : Problem) (ps : List Problem)
+    (hH : obHyps specs ref cuts prices = true) (hdf : booksDfOk specs ref = true)
+    (hU : setupPortfolioOB specs ref prices u skip = .ok U)
+    (hS : setupSplitOB specs ref cuts prices u skip = .ok ps)
+    (xs : List (List Rat)) (hlen : xs.length = ps.length)
+    (hfeas : ∀ i, (h : i < ps.length) → (ps[i]).Feasible (C14.vecOfList (xs.getD i [])))
+    (hopt : ∀ i, (h : i < ps.length) → ∀ z, (ps[i]).Feasible z →
+        (ps[i]).value z ≤ (ps[i]).value (C14.vecOfList (xs.getD i []))) :
+    let w := extendInert U (transportAlong (splitPermLive U ((splitPairs cuts).map (intervalSteps ref)))
+      (concatVec (List.zipWith C14O.stripInert ps xs)))
+    U.Feasible w ∧ (∀ y, U.Feasible y → U.value y ≤ U.value w) ∧
+    U.value w = ((List.range ps.length).map fun i => (ps.getD i default).value (C14.vecOfList (xs.getD i []))).sum :=
+  C14O.split_equals_unsplit_orderbooks_bool U ps _
+    (setupSplitOB_witness specs ref cuts prices u skip U ps hH hdf hU hS) xs hlen hfeas hopt
+
 /-! ## non-vacuity
 
 Two hourly steps, cut in the middle.  Node `n`: an order book with one FULL-EXECUTION order per hour and a contract
@@ -155,6 +263,25 @@ example : obHyps [.book "ob" "n" [⟨0, 7200, 1, 1⟩] true [1, 1],
     has two mapping rows at different steps -/
 example : ((orderBookProblem "ob" "n" [⟨0, 7200, 1, 1⟩] true exRef).mapping.map fun m => (m.var, m.step, m.isBool)) =
     [(0, 0, true), (0, 1, true)] ∧ orderInside exRef [0, 1] ⟨0, 7200, 1, 1⟩ = true := by decide +kernel
+/-- the LITERAL split set-up of the example: it succeeds with two interval problems of THREE variables each (both
+    orders + the contract variable; one order inert in each), the hypotheses of `split_witness_orderbooks_literal` hold
+    and its conclusion evaluates to true; without the inert variables the interval problems have the cost vectors and
+    boolean variables of `intervalProblem` -/
+private def exPs : List Problem :=
+  match setupSplitOB exSpecs exRef exCuts exPrices 3600 [] with | .ok ps => ps | .error _ => []
+
+example : obHyps exSpecs exRef exCuts exPrices = true ∧ booksDfOk exSpecs exRef = true ∧
+    exPs.map (·.n) = [3, 3] ∧ exPs.map Problem.live = [[0, 2], [1, 2]] ∧
+    splitWitnessModInert exU exPs (splitPermLive exU exIs) = true ∧
+    (exPs.map Problem.dropInert).map (·.c) = (exIs.map (intervalProblem exAs [])).map (·.c) ∧
+    (exPs.map Problem.dropInert).map (·.boolVars) = [[0], [0]] ∧ exU.live = [0, 1, 2, 3] := by decide +kernel
+
+/-- `assembly_without_inert` at work on the first interval: the order book of the interval has both orders, its live
+    part only the first -/
+example : mappedVars (orderBookProblem "ob" "n" exOrders true (exRef.pick [0])) = [0] ∧
+    (livePart (orderBookProblem "ob" "n" exOrders true (exRef.pick [0]))).c = [1] ∧
+    ((orderBookProblem "ob" "n" exOrders true exRef).restrictTo [0]).c = [1] ∧
+    (orderBookProblem "ob" "n" exOrders true (exRef.pick [0])).c = [1, 0] := by decide +kernel
 end Example
 
 end EAO.C14O2
